@@ -85,6 +85,22 @@ func main() {
 		cfg.MaxHeight, cfg.MaxTxns, cfg.MaxReverts = c.Pick(4, 5), 2, 0
 		add(chain.Run(c, cfg, chain.RunOpts{Exhaustive: true, Timeout: 20 * time.Minute}))
 	}
+	// exhaustive v2 revision sequences inside one block with the revision defects (verdicts only)
+	{
+		p := chain.Shapes()["v2only"]
+		p.GenSC = []chain.AbsOut{{600000, "B"}}
+		cfg := chain.BaseConfig(p)
+		cfg.Addrs = []string{"B"}
+		cfg.Templates, cfg.Defects = []string{"form2", "rev2"}, []string{"revision"}
+		cfg.RevShifts, cfg.FormRH = []int{24}, [][2]int{{250024, 25}}
+		cfg.WinStarts, cfg.WinLens = []int{1}, []int{2}
+		cfg.MaxHeight, cfg.MaxTxns, cfg.MaxReverts, cfg.NoPost = 2, 3, 0, true
+		st := chain.Run(c, cfg, chain.RunOpts{Exhaustive: true, Timeout: 20 * time.Minute})
+		add(st)
+		if st.Tags["v2:rev2!missedup"] == 0 {
+			c.Infra("vacuity: no in-block revision sequence ended in a revision raising the missed host value")
+		}
+	}
 	c.Cov("transactions_by_template", total.Tags)
 	c.Cov("blocks_accepted", total.Accepted)
 	c.Cov("blocks_rejected_as_predicted", total.Rejected)
